@@ -32,14 +32,17 @@ def fail(node, why):
 class Env:
   """Typing/translation environment of one target function."""
 
-  def __init__(self, names=None, attrs=None, calls=None, methods=None):
+  def __init__(self, names=None, attrs=None, calls=None, methods=None, known=None, localdefs=None, hints=None):
     self.names = dict(names or {})      # python name -> (coq, type)
     self.attrs = dict(attrs or {})      # dotted python attribute -> (coq, type)
     self.calls = dict(calls or {})      # dotted callee -> handler(tr, node, args)
     self.methods = dict(methods or {})  # (type-prefix, method) -> handler(tr, recv, args)
+    self.known = dict(known or {})      # optional name/attribute -> 'none' | 'some' (decided by an enclosing test)
+    self.localdefs = dict(localdefs or {})  # nested function name -> ast.FunctionDef (inlined at each call)
+    self.hints = dict(hints or {})      # name -> type of an empty-list initialiser
 
   def copy(self):
-    return Env(self.names, self.attrs, self.calls, self.methods)
+    return Env(self.names, self.attrs, self.calls, self.methods, self.known, self.localdefs, self.hints)
 
 
 def dotted(node):
@@ -108,9 +111,21 @@ class Tr:
       d = dotted(n)
       if d in env.attrs:
         return env.attrs[d]
+      if isinstance(n.value, ast.Name) and n.value.id in env.names:
+        c, t = env.names[n.value.id]
+        if ('attr', t, n.attr) in env.methods:
+          return env.methods[('attr', t, n.attr)](self, c)
       fail(n, 'unknown attribute')
+    if isinstance(n, ast.List) and not n.elts:
+      fail(n, 'empty list literal outside a typed initialisation')
     if isinstance(n, ast.Subscript):
       d = dotted(n.value)
+      if (isinstance(n.slice, ast.UnaryOp) and isinstance(n.slice.op, ast.USub) and isinstance(n.slice.operand, ast.Constant)
+          and n.slice.operand.value == 1):
+        c, t = self.expr(n.value, env)
+        if t == 'LZ':
+          return ('(last %s 0%%Z)' % c, 'Z')       # l[-1]; IndexError on [] is the caller's obligation
+        fail(n, 'subscript [-1] of ' + t)
       if isinstance(n.slice, ast.Constant) and isinstance(n.slice.value, int):
         key = '%s[%d]' % (d, n.slice.value)
         if key in env.attrs:
@@ -153,6 +168,10 @@ class Tr:
       return ('(%s, %s)' % (a, b), 'P%s,%s' % (ta, tb))
     if isinstance(n, ast.Dict) and not n.keys:
       return ('[]', 'D?')
+    if isinstance(n, ast.IfExp) and isinstance(n.orelse, ast.Constant) and n.orelse.value is None:
+      c, tc = self.expr(n.test, env)
+      a, ta = self.expr(n.body, env)
+      return ('(if %s then Some %s else None)' % (self.truth(c, tc, n), a), 'O' + ta)
     if isinstance(n, ast.IfExp):
       c, tc = self.expr(n.test, env)
       a, ta = self.expr(n.body, env)
@@ -192,6 +211,9 @@ class Tr:
     if type(op) not in names:
       fail(n, 'comparison operator')
     nm = names[type(op)]
+    if ta in ('Z', 'N') and tb == 'OZ' and nm in ('eqb', 'neqb'):     # int == Optional[int]
+      e = '(match %s with Some v__ => Z.eqb %s v__ | None => false end)' % (b, toZ(a, ta))
+      return (e if nm == 'eqb' else '(negb %s)' % e, 'B')
     if ta == 'N' and tb == 'N':
       pre = 'Nat.'
       if nm in ('gtb', 'geb'):
@@ -246,6 +268,14 @@ class Tr:
     d = dotted(n.func)
     if d in env.calls:
       return env.calls[d](self, n, env)
+    if isinstance(n.func, ast.Name) and n.func.id in env.localdefs:
+      return self.inline_local(env.localdefs[n.func.id], n, env)
+    if isinstance(n.func, ast.Attribute) and n.keywords:
+      recv, rt = self.expr(n.func.value, env)
+      key = ('kwmethod', rt, n.func.attr)
+      if key in env.methods and not n.args:
+        return env.methods[key](self, recv, {k.arg: self.expr(k.value, env) for k in n.keywords})
+      fail(n, 'call with keywords')
     if isinstance(n.func, ast.Name) and n.func.id in env.names and env.names[n.func.id][1].startswith('FUN:'):
       kind = env.names[n.func.id][1][4:]
       if kind == 'comb':
@@ -291,8 +321,52 @@ class Tr:
       fail(n, 'list() of ' + t)
     fail(n, 'call')
 
+  ANNOT = {'Set[GeoIndex]': 'S'}
+
+  def inline_local(self, fn, n, env):
+    """A nested function is inlined at each call with the bindings of the call site (a Python closure reads
+    its free variables when it is called, not when it is defined)."""
+    a = fn.args
+    if a.defaults or a.kwonlyargs or a.vararg or a.kwarg or n.keywords or len(a.args) != len(n.args):
+      fail(n, 'call of nested function: arity')
+    env2 = env.copy()
+    for p, arg in zip(a.args, n.args):
+      want = self.ANNOT.get(ast.unparse(p.annotation)) if p.annotation is not None else None
+      c, t = self.expr(arg, env)
+      if want is None or want != t:
+        fail(n, 'nested function parameter %s: annotation %s, argument %s' % (p.arg, want, t))
+      env2.names[p.arg] = (c, t)
+    if any(isinstance(x, (ast.Assign, ast.AugAssign, ast.Yield, ast.Global, ast.Nonlocal)) for st in fn.body for x in ast.walk(st)):
+      fail(fn, 'nested function with assignments')
+    saved, self.ret_type = self.ret_type, None
+    try:
+      code = self.block(list(fn.body), env2, lambda e: fail(fn, 'nested function falls off its end'))
+      t = self.ret_type
+    finally:
+      self.ret_type = saved
+    return ('(%s)' % code, t)
+
+  def any_idiom(self, s, rest, env):
+    """for p in it: if test: return True  /  return False   ==>   existsb (fun p => test) it"""
+    if not (isinstance(s, ast.For) and not s.orelse and isinstance(s.target, ast.Name) and len(s.body) == 1
+            and isinstance(s.body[0], ast.If) and not s.body[0].orelse and len(s.body[0].body) == 1
+            and isinstance(s.body[0].body[0], ast.Return) and isinstance(s.body[0].body[0].value, ast.Constant)
+            and s.body[0].body[0].value.value is True and len(rest) == 1 and isinstance(rest[0], ast.Return)
+            and isinstance(rest[0].value, ast.Constant) and rest[0].value.value is False):
+      return None
+    it, itt = self.expr(s.iter, env)
+    if not itt.startswith('L'):
+      fail(s, 'iteration over ' + itt)
+    env_b = env.copy()
+    env_b.names[s.target.id] = (s.target.id, itt[1:])
+    c, t = self.expr(s.body[0].test, env_b)
+    self.ret_type = 'B'
+    return '(existsb (fun %s => %s) %s)' % (s.target.id, self.truth(c, t, s), it)
+
   # ---------------------------------------------------------------- stmts
-  def assigned(self, stmts):
+  MUTATING_METHODS = ('append', 'push')
+
+  def assigned(self, stmts, attr_targets=False):
     out = []
     for s in stmts:
       for x in ast.walk(s):
@@ -306,10 +380,16 @@ class Tr:
           tgt = x.target.id
         elif isinstance(x, (ast.Yield, ast.YieldFrom)):
           tgt = 'out__'
+        elif (attr_targets and isinstance(x, ast.Assign) and len(x.targets) == 1 and isinstance(x.targets[0], ast.Attribute)
+              and isinstance(x.targets[0].value, ast.Name) and x.targets[0].value.id != 'self'):
+          tgt = x.targets[0].value.id          # obj.field = ...: the local object changes
         elif isinstance(x, ast.Expr) and isinstance(x.value, ast.Call):
           d = dotted(x.value.func)
           if d in self.mutators:
             tgt = x.value.args[self.mutators[d][1]].id
+          elif (isinstance(x.value.func, ast.Attribute) and isinstance(x.value.func.value, ast.Name)
+                and x.value.func.attr in self.MUTATING_METHODS):
+            tgt = x.value.func.value.id
         if tgt and tgt not in out:
           out.append(tgt)
     return out
@@ -350,6 +430,8 @@ class Tr:
     if (isinstance(test, ast.Compare) and len(test.ops) == 1 and isinstance(test.ops[0], (ast.Is, ast.IsNot))
         and isinstance(test.comparators[0], ast.Constant) and test.comparators[0].value is None):
       d = dotted(test.left)
+      if d in env.known:
+        return ('static', d, None, None, (env.known[d] == 'none') == isinstance(test.ops[0], ast.Is))
       if isinstance(test.left, ast.Name) and d in env.names and env.names[d][1].startswith('O'):
         return ('name', d, env.names[d][0], env.names[d][1][1:], isinstance(test.ops[0], ast.Is))
       if d in env.attrs and env.attrs[d][1].startswith('O'):
@@ -365,8 +447,19 @@ class Tr:
     s, rest = stmts[0], stmts[1:]
     if isinstance(s, ast.Expr) and isinstance(s.value, ast.Constant) and isinstance(s.value.value, str):
       return self.block(rest, env, tail, in_loop)           # docstring
+    if isinstance(s, ast.FunctionDef):
+      if s.decorator_list or s.name in env.names:
+        fail(s, 'nested function')
+      env2 = env.copy()
+      env2.localdefs[s.name] = s
+      return self.block(rest, env2, tail, in_loop)
+    idiom = self.any_idiom(s, rest, env) if self.mode == 'value' else None
+    if idiom is not None:
+      return idiom
     if isinstance(s, ast.Assign) and len(s.targets) == 1:
       t0 = s.targets[0]
+      if isinstance(t0, ast.Name) and isinstance(s.value, ast.List) and not s.value.elts and t0.id in env.hints:
+        return self.let(t0.id, '[]', env.hints[t0.id], rest, env, tail, in_loop)
       if isinstance(t0, ast.Name):
         d = dotted(s.value)
         if d in env.attrs and env.attrs[d][1].startswith('FUN:'):
@@ -436,6 +529,16 @@ class Tr:
           fail(s, 'mutated argument must be a local name')
         return self.pre() + self.let(tgt.id, '(%s %s)' % (f, ' '.join(a for a, _ in args)), args[i][1],
                                      rest, env, tail, in_loop)
+      fn = s.value.func
+      if (isinstance(fn, ast.Attribute) and isinstance(fn.value, ast.Name) and fn.value.id in env.names
+          and fn.attr in self.MUTATING_METHODS and not s.value.keywords):
+        recv, rt = env.names[fn.value.id]
+        args = [self.expr(a, env) for a in s.value.args]
+        if fn.attr == 'append' and rt.startswith('L') and len(args) == 1 and args[0][1] == rt[1:]:
+          return self.pre() + self.let(fn.value.id, '(%s ++ [%s])' % (recv, args[0][0]), rt, rest, env, tail, in_loop)
+        if ('mut', rt, fn.attr) in env.methods:
+          c = env.methods[('mut', rt, fn.attr)](self, recv, args)
+          return self.pre() + self.let(fn.value.id, c, rt, rest, env, tail, in_loop)
       fail(s, 'expression statement')
     if isinstance(s, ast.Raise):
       self.check_raise(s)
@@ -460,7 +563,7 @@ class Tr:
       # hoist the continuation when the branches assign nothing it reads (keeps the output linear)
       if (rest and self.mode == 'value' and not getattr(self, '_hoisting', False)
           and not any(isinstance(x, ast.Continue) for st in list(s.body) + list(s.orelse) for x in ast.walk(st))):
-        assigned = set(self.assigned(list(s.body) + list(s.orelse)))
+        assigned = set(self.assigned(list(s.body) + list(s.orelse), attr_targets=True))
         used = {x.id for st in rest for x in ast.walk(st) if isinstance(x, ast.Name)}
         if not (assigned & used) and 'out__' not in assigned:
           self.kcount = getattr(self, 'kcount', 0) + 1
@@ -474,17 +577,33 @@ class Tr:
           finally:
             self._hoisting = False
           return 'let %s := %s in\n%s' % (k, rest_code, inner)
+      if (isinstance(s.test, ast.BoolOp) and isinstance(s.test.op, ast.And) and len(s.test.values) >= 2
+          and self.none_test(s.test.values[0], env) is not None):
+        # `if X is not None and B: body else: orelse`  ==  if X is not None: (if B: body else: orelse) else: orelse
+        others = s.test.values[1:]
+        inner_test = others[0] if len(others) == 1 else ast.BoolOp(op=ast.And(), values=others)
+        inner_if = ast.If(test=inner_test, body=s.body, orelse=s.orelse)
+        outer_if = ast.If(test=s.test.values[0], body=[inner_if], orelse=s.orelse)
+        for x in (inner_test, inner_if, outer_if):
+          ast.copy_location(x, s)
+        ast.fix_missing_locations(outer_if)
+        return self.block([outer_if] + rest, env, tail, in_loop)
       nt = self.none_test(s.test, env)
+      if nt is not None and nt[0] == 'static':
+        taken = s.body if nt[4] else s.orelse
+        return self.block(list(taken) + rest, env, tail, in_loop)
       if nt is not None:
         kind, key, coq, inner, none_first = nt
         body_none, body_some = (s.body, s.orelse) if none_first else (s.orelse, s.body)
-        env_s = env.copy()
+        env_s, env_n = env.copy(), env.copy()
         var = key.replace('.', '_').replace('self_parameters_', '') + '__'
         if kind == 'name':
           env_s.names[key] = (var, inner)
         else:
           env_s.attrs[key] = (var, inner)
-        a = self.block(list(body_none) + rest, env, tail, in_loop)
+        env_s.known[key] = 'some'
+        env_n.known[key] = 'none'
+        a = self.block(list(body_none) + rest, env_n, tail, in_loop)
         b = self.block(list(body_some) + rest, env_s, tail, in_loop)
         return '(match %s with\n | None => %s\n | Some %s => %s\n end)' % (coq, a, var, b)
       c, t = self.expr(s.test, env)
@@ -563,6 +682,8 @@ class Tr:
   def block_if_only(self, s, env, tail, in_loop):
     self._hoisting = False     # nested statements may hoist again
     nt = self.none_test(s.test, env)
+    if nt is not None and nt[0] == 'static':
+      return self.block(list(s.body if nt[4] else s.orelse), env, tail, in_loop)
     if nt is not None:
       kind, key, coq, inner, none_first = nt
       body_none, body_some = (s.body, s.orelse) if none_first else (s.orelse, s.body)
@@ -572,6 +693,9 @@ class Tr:
         env_s.names[key] = (var, inner)
       else:
         env_s.attrs[key] = (var, inner)
+      env_s.known[key] = 'some'
+      env = env.copy()
+      env.known[key] = 'none'
       a = self.block(list(body_none), env, tail, in_loop)
       b = self.block(list(body_some), env_s, tail, in_loop)
       return '(match %s with\n | None => %s\n | Some %s => %s\n end)' % (coq, a, var, b)
